@@ -1,6 +1,6 @@
 """C06 — comments preserved: text of every comment survives (kernel level)."""
 from mirsym import models_typst as T
-from . import comments, lists, flows, chains, mathargs, imports
+from . import comments, lists, flows, chains, mathargs, imports, conserve, deep
 from .common import validate_corpus
 
 EXPLANATION = (
@@ -32,6 +32,9 @@ def run(S):
     imports.report(S, 'C06', f5)
     f3 = chains.explore(S, want=('C06',))
     chains.report(S, 'C06', f3)
+    # the real printer, nothing opaque, on shapes from real parses and small documents: the sequence of comments is conserved
+    f6, cov6 = conserve.explore(S, want=('C06',), per_kind=40 if S.tier == 'quick' else 1000, max_nodes=18 if S.tier == 'quick' else 50, deep=True)
+    conserve.report(S, 'C06', f6)
     validate_corpus(S, 'lists', [l for l, _ in f2 if l.startswith('C06:')], lambda: lists.native_sweep(S, 'C06', all_hits=True))
     validate_corpus(S, 'mathargs', [l for l, _ in f4 if l.startswith('C06:')], lambda: mathargs.native_sweep(S, 'C06'))
     validate_corpus(S, 'imports', [l for l, _ in f5 if l.startswith('C06:')], lambda: imports.native_sweep(S, 'C06'))
